@@ -28,6 +28,9 @@ def _cases(lines):
         yield lines[s:e]
 
 
+_FIRST = {}
+
+
 def _fail_to_violation(stream, v, ops, rep):
     # v = "FAIL <kind>:<clause> class=<class> compiled=.. spec=.. req ..."
     parts = v.split()
@@ -38,7 +41,11 @@ def _fail_to_violation(stream, v, ops, rep):
             cls = p[6:]
     # a classified input class is the fingerprint by itself (same defect whatever the direction / listener); an
     # unclassified one carries a hash of its case, so that replays of different defects never share a file name
-    fp = cls if cls != "other" else "%s:%s:%s" % (clause, cls, hashlib.sha1("\n".join(ops[1:]).encode()).hexdigest()[:8])
+    fp = cls
+    if cls == "other":
+        # one replay per (chain kind, direction) and run: the first case found names it
+        coarse = "%s:%s" % (clause, cls)
+        fp = _FIRST.setdefault(coarse, "%s:%s" % (coarse, hashlib.sha1("\n".join(ops[1:]).encode()).hexdigest()[:8]))
     what = ("generated RBAC and AuthorizationPolicy semantics disagree (%s, input class %s): %s"
             % (clause, cls, " ".join(parts[2:6])))
     return (fp, what, {"stream": stream, "ops": ops, "oracle_verdict": v, "correspondence": rep})
@@ -113,18 +120,10 @@ def run_oracle_all(ctx, stream, ops):
     verdicts = ctx.read_lines(out)
     cases = list(_cases(ctx.read_lines(ops)))
     ctx.count("oracle.%s.cases" % stream, len(verdicts))
-    seen = getattr(ctx, "_c08_seen", None)
-    if seen is None:
-        seen = ctx._c08_seen = set(v["fingerprint"].rsplit(":", 1)[0] for v in ctx.violations)
     for i, v in enumerate(verdicts):
         if v.startswith("FAIL") and i < len(cases):
             ctx.count("oracle.%s.fail" % stream)
             fp, what, robj = _fail_to_violation(stream, v, cases[i], None)
-            # unclassified failures: one replay per (chain kind, direction), the first case found
-            coarse = fp.rsplit(":", 1)[0] if ":other:" in fp else fp
-            if ":other:" in fp and coarse in seen:
-                continue
-            seen.add(coarse)
             ctx.violation(fp, what, robj, True)
 
 
